@@ -467,8 +467,151 @@ def ctor_time_reads(idx: Index, rep: Report, rule: str) -> None:
     rep.require_min(rule, "ctor_time_parameters", 1)
 
 
+_CONTAINER_CTORS = ("set", "dict", "list", "OrderedDict", "defaultdict")
+
+
+def _is_container_literal(e: ast.AST) -> bool:
+    return isinstance(e, (ast.Dict, ast.Set, ast.List)) or (isinstance(e, ast.Call) and call_name(e) in _CONTAINER_CTORS)
+
+
+def _copies_element(e: ast.AST) -> bool:
+    """the expression builds a new container from its operand"""
+    if isinstance(e, (ast.ListComp, ast.SetComp, ast.DictComp)):
+        return True
+    if isinstance(e, ast.Call) and call_name(e) in ("copy", "deepcopy", "clone") + _CONTAINER_CTORS:
+        return True
+    if isinstance(e, ast.Subscript) and isinstance(e.slice, ast.Slice):
+        return True
+    return False
+
+
+def nested_containers_copied(idx: Index, rep: Report, rule: str) -> None:
+    """A field whose *elements* are containers that the class mutates in place (`self._f.setdefault(k, {})…`,
+    `self._f[k].append(…)`) must be copied element-wise by clone: `self._f.copy()` copies the outer dictionary only,
+    original and clone then share the inner containers and an edit of one changes the other."""
+    from ..rules import clone_coverage
+
+    n = 0
+    for ci in sorted(idx.classes.values(), key=lambda c: c.qualname):
+        if "clone" not in ci.methods or not ci.module.name.startswith("unified_planning.model"):
+            continue
+        nested: Dict[str, ast.AST] = {}
+        for k in ci.mro:
+            for m in k.methods.values():
+                if m.name in ("clone", "_clone_to", "__init__"):
+                    continue
+                for c in walk_no_nested(m.node):
+                    if isinstance(c, ast.Call) and call_name(c) == "setdefault" and isinstance(c.func, ast.Attribute) and isinstance(c.func.value, ast.Attribute) and norm(c.func.value.value) == "self" and len(c.args) == 2 and _is_container_literal(c.args[1]):
+                        nested.setdefault(c.func.value.attr, c)
+                    if isinstance(c, ast.Call) and isinstance(c.func, ast.Attribute) and c.func.attr in ("append", "add", "extend", "update", "remove", "pop", "insert") and isinstance(c.func.value, ast.Subscript) and isinstance(c.func.value.value, ast.Attribute) and norm(c.func.value.value.value) == "self":
+                        nested.setdefault(c.func.value.value.attr, c)
+        if not nested:
+            continue
+        clone = ci.methods["clone"]
+        covered, _, _ = clone_coverage(idx, ci, clone)
+        for f in sorted(nested):
+            nd = covered.get(f)
+            if not isinstance(nd, ast.Assign):
+                continue
+            v = nd.value
+            n += 1
+            where = clone.loc(nd)
+            if isinstance(v, ast.DictComp):
+                ok = _copies_element(v.value)
+                shallow = isinstance(v.value, ast.Name)
+            elif isinstance(v, ast.Call) and call_name(v) in ("copy", "dict", "OrderedDict") and any(isinstance(x, ast.Attribute) and x.attr == f for x in ast.walk(v)):
+                ok, shallow = False, True
+            elif isinstance(v, ast.Attribute) and v.attr == f:
+                ok, shallow = False, True
+            elif isinstance(v, ast.Call) and call_name(v) == "deepcopy":
+                ok, shallow = True, False
+            else:
+                ok, shallow = False, False
+            if ok:
+                rep.ok(rule, f"{ci.name}.clone copies the inner containers of {f}", where, construct=f"{f} = {norm(v)[:70]}", function=clone.qualname)
+            elif shallow:
+                rep.bad(rule, f"{ci.name}.clone copies the inner containers of {f}", where, construct=f"{f} = {norm(v)[:70]}", detail=f"the elements of {f} are containers that are changed in place; only the outer container is copied, so the original and the clone share them and an edit of one changes the bookkeeping of the other", function=clone.qualname)
+            else:
+                rep.inconclusive(rule, f"{ci.name}.clone: copy idiom of {f} not recognised", where, detail=norm(v)[:80], function=clone.qualname)
+    rep.count("nested_container_fields", n)
+    rep.require_min(rule, "nested_container_fields", 6)
+
+
+def rederived_bookkeeping_agrees(idx: Index, rep: Report, rule: str) -> None:
+    """Where a clone does not copy the conflict bookkeeping (_fluents_inc_dec / _fluents_assigned) but re-derives it
+    from the effects, the derivation must record exactly what check_conflicting_effects records: decided by
+    executing both on every abstract effect (assign/increase/decrease x conditional x Boolean)."""
+    from .C24_table import Eff, Mini, Raised, Unsupported
+
+    ce = idx.func("model.effect.check_conflicting_effects")
+    writer = Mini(ce.node)
+    effs = [Eff(k, "v1", c, b) for b in (False, True) for c in (False, True) for k in (("assign", "increase", "decrease") if not b else ("assign",))]
+    n = 0
+    for f in idx.all_funcs():
+        if not f.module.name.startswith("unified_planning.model") or f.name not in ("clone", "_clone_to"):
+            continue
+        for a in walk_no_nested(f.node):
+            if not (isinstance(a, ast.Assign) and len(a.targets) == 1 and isinstance(a.targets[0], ast.Attribute) and a.targets[0].attr in ("_fluents_inc_dec", "_fluents_assigned")):
+                continue
+            fld = a.targets[0].attr
+            v = a.value
+            if not isinstance(v, (ast.SetComp, ast.DictComp, ast.ListComp)) or len(v.generators) != 1:
+                continue
+            g = v.generators[0]
+            if not (isinstance(g.iter, ast.Attribute) and g.iter.attr.endswith("effects") and isinstance(g.target, ast.Name)):
+                continue
+            n += 1
+            bad = []
+            try:
+                for e in effs:
+                    st_a: Dict = {}
+                    st_i: Set = set()
+                    try:
+                        writer.call({"effect": e, "timing": None, "simulated_effect": None, "fluents_assigned": st_a, "fluents_inc_dec": st_i, "name": "n"})
+                    except Raised:
+                        continue
+                    env = {g.target.id: e}
+                    m = Mini(f.node)
+                    keep = all(m._truth(m._expr(c, env)) for c in g.ifs)
+                    if fld == "_fluents_inc_dec":
+                        derived = {m._expr(v.elt, env)} if keep and not isinstance(v, ast.DictComp) else set()
+                        if derived != st_i:
+                            bad.append(f"[{e.label()}]: recorded {sorted(map(str, st_i))}, re-derived {sorted(map(str, derived))}")
+                    else:
+                        derived_d = {m._expr(v.key, env): m._expr(v.value, env)} if keep and isinstance(v, ast.DictComp) else {}
+                        if derived_d != st_a:
+                            bad.append(f"[{e.label()}]: recorded {len(st_a)} entries, re-derived {len(derived_d)}")
+            except Unsupported as u:
+                rep.inconclusive(rule, f"{f.short}: re-derivation of {fld} not interpretable", f.loc(a), detail=str(u), function=f.qualname)
+                continue
+            rep.check(not bad, rule, f"{f.short}: re-derived {fld} equals what check_conflicting_effects records", f.loc(a), construct=f"{fld} = {norm(v)[:70]}", detail="" if not bad else "; ".join(bad[:3]) + " — the clone rejects (or accepts) later effects that the original accepts (rejects)", function=f.qualname)
+    rep.count("rederived_bookkeeping_sites", n)
+    # positive fixture: the wrong derivation must be refuted, the right one accepted
+    for src, expect in (("new._fluents_inc_dec = {e.fluent for e in new._effects if e.is_increase() or e.is_decrease()}", False), ("new._fluents_inc_dec = {e.fluent for e in new._effects if (e.is_increase() or e.is_decrease()) and not e.is_conditional()}", True)):
+        a = ast.parse(src).body[0]
+        v, g = a.value, a.value.generators[0]
+        agree = True
+        try:
+            for e in effs:
+                st_a, st_i = {}, set()
+                try:
+                    writer.call({"effect": e, "timing": None, "simulated_effect": None, "fluents_assigned": st_a, "fluents_inc_dec": st_i, "name": "n"})
+                except Raised:
+                    continue
+                m = Mini(a)
+                env = {g.target.id: e}
+                keep = all(m._truth(m._expr(c, env)) for c in g.ifs)
+                agree = agree and (({m._expr(v.elt, env)} if keep else set()) == st_i)
+        except Unsupported as u:
+            raise AnalysisError(f"{rule}: fixture not interpretable ({u})")
+        if agree != expect:
+            raise AnalysisError(f"{rule}: fixture `{src[:60]}…` judged {agree}, expected {expect}")
+
+
 def c22(idx: Index, rep: Report, tier: str) -> None:
     ctor_time_reads(idx, rep, "C22.3 clone-passes-constructor-time-parameters")
+    nested_containers_copied(idx, rep, "C22.4 T8 nested-containers-copied")
+    rederived_bookkeeping_agrees(idx, rep, "C22.5 T15 rederived-bookkeeping-agrees")
     funcs = [f for f in idx.all_funcs() if f.module.name.startswith("unified_planning.model") and f.name in ("clone", "_clone_to")]
     n = sibling_fields(rep, "C22.1 T23 sibling-fields", funcs)
     rep.count("sibling_field_sites", n)
